@@ -211,6 +211,13 @@ def schema_gates(ctx, py, rule="CODEC-GATES"):
     ctx.ob(rule, "string_decode|decode-then-cut", okd, m.loc(bnul[0] if bnul else sd),
            "the unpacked field is decoded as a whole and cut at the NUL character afterwards" if okd else
            "the raw bytes are cut at a zero byte before decoding: multi-byte encodings are truncated")
+    # ... and cut at the FIRST NUL: whatever follows the terminator (stale bytes of a C buffer) is not part of the string
+    src = ast.unparse(sd)
+    first = re.search(r"\.(find|index|split|partition)\(", src) is not None
+    strip_ = re.search(r"\.(rstrip|strip|replace)\(\s*'\\x00'", src) is not None
+    ctx.ob(rule, "string_decode|first-nul", first and not strip_, m.loc(sd),
+           "a null-terminated string ends at the first NUL (find / index / split)" if (first and not strip_) else
+           "the decoder strips or replaces NULs instead of cutting at the FIRST one: bytes after the terminator leak into the value")
 
 
 def codec_defaults(ctx, py, rule="CODEC-DEFAULTS"):
